@@ -484,6 +484,7 @@ def run(ctx, rep):
     from sa import dtypes
     rep.rule('C06.T', "times / dates given as Python numbers enter the computation at the requested precision: a tensor built from them without a dtype (torch's default float32) is neither computed with nor converted afterwards")
     dtypes.check_default_precision(ctx, rep, 'C06.T', ['torchtree.evolution.tree_model'], 1)
+    dtypes.check_work_buffers(ctx, rep, 'C06.T', ['torchtree.evolution.tree_model', 'torchtree.evolution.tree_height_transform'])
     rep.explanation = (
         "C06.D: in every class whose constructor chooses an attribute among several constructor calls, stores to that attribute elsewhere must not "
         "install a fixed member of the set (the ratio/shift parameterisation must survive cuda()/cpu()).  C06.R: writer/reader layout check of the "
